@@ -623,3 +623,41 @@ def run_inv_render_write(p: Project, clause: str, floor: int, exceptions: dict, 
                     rr.inst(key, True)
                     rr.add(finding("INV-RENDER", fi, node.stmt, f"`{norm(node.stmt, 60)}` rewrites self.{attr} on the render path of {C.name} (render() reads it) and can finish without _invalidate(): canvases cached for other sizes keep showing the old value while the widget reports the new one (render at size A, then at size B, then at A again serves the stale canvas)", construct=f"render-path store to {attr} without _invalidate()", analysed_as=C.name))
     return rr
+
+
+def run_inv_before_emit(p: Project, clause: str, floor: int, only_classes=None) -> RuleResult:
+    """A signal emission hands control to user code that may raise (and the application may catch it and carry on).
+    When a method has written render state and emits a signal *before* it invalidated, an exception from a handler
+    leaves the widget changed but its cached canvases - and those of its ancestors - in place.  So: from every
+    render-state write, every path to an emission (`self._emit(..)`, `emit_signal(..)`) passes an invalidating node.
+    (Edit.set_edit_text: the cursor clamp through the edit_pos setter invalidates between storing the new text and
+    emitting 'postchange'.)"""
+    rr = RuleResult("INV-EMIT", clause, "a render-state write is invalidated before the method emits a signal (handlers are user code and may raise)", floor=floor)
+    seen = set()
+    for C in widget_classes(p):
+        if only_classes and C.name not in only_classes:
+            continue
+        cx = ClassCtx(p, C)
+        for fi in cx.all_funcs:
+            if fi.qualname in seen or id(fi) in cx.closure_funcs or fi.name in ("__init__", "__new__", "_invalidate", "__del__") or fi.is_static or fi.is_classmethod:
+                continue
+            cfg = cx.cfg(fi)
+            emits = [n for n in cfg.nodes if n.ast is not None and n.kind not in ("entry", "exit", "raise") and any(isinstance(c, ast.Call) and ((isinstance(c.func, ast.Attribute) and c.func.attr in ("_emit", "emit_signal")) or (isinstance(c.func, ast.Name) and c.func.id == "emit_signal")) for c in ast.walk(n.ast) if not isinstance(n.ast, (ast.FunctionDef, ast.ClassDef)))]
+            if not emits:
+                continue
+            body = [n for n in cfg.nodes if n.kind not in ("entry", "exit", "raise")]
+            inv = {n for n in body if cx.node_invalidates(n, fi)}
+            writes = [(n, list(cx.node_writes(n, fi))) for n in body if n not in inv]
+            writes = [(n, ws) for n, ws in writes if ws]
+            if not writes:
+                continue
+            seen.add(fi.qualname)
+            for n, ws in writes:
+                r = cfg.reachable([n], avoid=inv)
+                hit = [e for e in emits if e in r and e is not n]
+                ident = f"{short(fi)}: {norm(n.stmt, 40)}"
+                rr.inst(ident, True, {"method": short(fi), "write": norm(n.stmt, 60), "emissions": [norm(e.stmt, 50) for e in emits], "invalidated_before_every_emission": not hit} if len(rr.samples) < 8 else None)
+                if hit:
+                    attrs = sorted({a for a, _an, _how in ws})
+                    rr.add(finding("INV-EMIT", fi, n.stmt, f"`{norm(n.stmt, 60)}` writes {', '.join('self.' + a for a in attrs)} (read by {C.name}'s render path) and `{norm(hit[0].stmt, 50)}` can be reached without _invalidate() in between: a handler that raises leaves the widget changed while its cached canvases (and its ancestors') still show the old state", construct=f"emission before invalidation of {','.join(attrs)}", analysed_as=C.name))
+    return rr
